@@ -17,6 +17,7 @@ from mc.drivers import stores as S
 from mc.lattice import Emb
 
 FIELDS = ("type", "client", "hostname", "name", "data")
+B2 = "B'\"%;--"  # the second operated bucket's id carries SQL-special characters
 ALL_SUBSETS = [c for k in range(1, 6) for c in itertools.combinations(FIELDS, k)]
 QUICK_SUBSETS = [("type",), ("client",), ("hostname",), ("name",), ("data",), ("type", "data"), FIELDS]
 EXTEND_SUBSETS = (FIELDS, ("data",))
@@ -132,7 +133,7 @@ class World:
 
 def ev_content(emb, b):
     # the content is a function of the bucket only, so the state space stays finite
-    n = {"A": 0, "B": 1}.get(b, 2)
+    n = {"A": 0, B2: 1}.get(b, 2)
     e = emb.ev(n % 3, (n + 1) % 2, f"e{n}")
     return e, (S.us_of(e.timestamp), S.dus_of(e.duration), S.canon_data(e.data))
 
@@ -306,7 +307,7 @@ def _expand(hist):
 def _cfg(ctx):
     _G["ctx"] = ctx
     _G["emb"] = Emb(ctx.base, 1_000_000)
-    _G["buckets"] = ("A", "B")
+    _G["buckets"] = ("A", B2)
 
 
 def run(ctx):
